@@ -1,6 +1,7 @@
 package test
 
 import (
+	"io"
 	"bytes"
 	"io/fs"
 	"os"
@@ -89,6 +90,15 @@ func (ow *orderWatch) complete(key string) {
 // faultPlan lets the explorer pick: no fault, the k-th write-open fails, or the
 // k-th commit fails (k symbolic: the storage callbacks fork on it).
 func faultPlan(st *verifmodel.Store, maxWrites int) int {
+	// the failing write reports an arbitrary error, or one of the io sentinels that a
+	// closed connection / truncated stream produces (and that builders reading their
+	// input compare against)
+	switch verifrt.Choose(3) {
+	case 1:
+		st.FaultErr = io.EOF
+	case 2:
+		st.FaultErr = io.ErrUnexpectedEOF
+	}
 	kind := verifrt.Choose(3)
 	switch kind {
 	case 1:
